@@ -27,14 +27,21 @@ RULE = ("All 65536 integers (MKI$/CVI, HEX$/OCT$ re-read with &H/&O, CINT/FIX/IN
         "built around the binary point with fraction 0/1/half-1/half/half+1/all-ones; values next to "
         "the int16 ends; extreme exponents; dirty zeros; doubles whose low 32 bits sit at the "
         "single rounding midpoint) for CINT/FIX/INT/CDBL/CSNG through the values API, and a "
-        "Hypothesis sample of the same plus MKx$(CVx(s)) through evaluate and a stored program; "
+        "Hypothesis sample of the same plus MKx$(CVx(s)) through evaluate and a stored program; an "
+        "enumerated boundary set for MKx$(CVx(s))=s (exponent byte in {0,1,2,7F,80,81,FE,FF} x all "
+        "combinations of {00,01,7F,80,81,FE,FF} in the single mantissa bytes / assorted double "
+        "mantissas) through evaluate, variable assignment + PEEK, and FIELD/LSET; "
         "thorough adds all 2^24 single patterns at 6 exponents. Non-trivial: the value has a "
         "fractional part, or |x| >= 32767 (range rule in play), or (double->single) the dropped "
         "32 bits are non-zero; distinct = distinct (function, bit pattern).")
 ASSUMPTIONS = [
     "CINT of x with round(x) in range but x itself outside [-32768, 32767] (e.g. 32767.3): the "
     "rounded integer or Overflow are both accepted (statement wording vs. GW-BASIC)",
-    "CVx of an exponent-0 string: only value 0 of MKx$(CVx(s)) is required, bytes may canonicalise",
+    "MKx$(CVx(s)) = s byte for byte is demanded for EVERY 2/4/8-byte s including the non-canonical "
+    "zeroes (exponent byte 0 with anything in mantissa/sign), on the direct paths the statement "
+    "covers: CVx->MKx$, assignment to a variable (MKx$ of it and PEEK at VARPTR), a FIELD/LSET "
+    "record buffer, and values.from_bytes/clone at API level; results of arithmetic or of other "
+    "conversions (CDBL/CSNG/FIX/INT) of a zero encoding are compared by value only",
     "double->single beyond the largest single: Overflow (raise) or 'Overflow' message + signed "
     "maximum (soft) is required when the nearer neighbour would be 2^127; within 1/256 ulp of the "
     "midpoint either is accepted",
@@ -115,6 +122,9 @@ def observe(f, b, route):
     """-> ('ok', result bytes) | ('err', code) | ('escaped', key) | ('budget',) ; soft flag."""
     n = len(b)
     if route == 'api':
+        if f == 'MK':
+            # values.from_bytes is what CVx builds its result with; clone() what assignment uses
+            return M.call1(lambda v: v.clone(), b, wrap=False), None
         return M.call1(getattr(M.api().V, API_FN[f]), b), None
     rn = {'CINT': 2, 'CDBL': 8, 'CSNG': 4}.get(f, n)
     if f == 'MK':
@@ -134,16 +144,23 @@ def observe(f, b, route):
                 return ('ok', bytes(o.value)), o.errors[0][0]
             return ('err', o.errors[0][0]), None
         return ('ok', bytes(o.value)), None
-    if route == 'prog':
+    if route in ('prog', 'field'):
         s = M.sess('prog')
         # conversion by assignment to a typed variable where BASIC offers it
         if f in ('CINT', 'CSNG', 'CDBL'):
             line = b'20 R' + SIGIL[rn] + b'=' + CV[n] + b'(A$):C$=' + MK[rn] + b'(R' + SIGIL[rn] + b')'
         elif f == 'MK':
-            # store in a variable, read MKx$ of it and the variable's bytes in memory
+            # store in a variable, read MKx$ of it and the variable's bytes in memory;
+            # route 'field': the string comes out of a random-access record buffer (FIELD/LSET)
             v = b'X' + SIGIL[n]
-            line = (b'20 ' + v + b'=' + inner + b':C$=' + MK[n] + b'(' + v + b'):P$="":FOR I%=0 TO '
-                    + str(n - 1).encode() + b':P$=P$+CHR$(PEEK(VARPTR(' + v + b')+I%)):NEXT')
+            pre, src, post = b'', inner, b''
+            if route == 'field':
+                pre = (b'CLOSE:OPEN "R",1,"F.DAT",' + str(n).encode() + b':FIELD 1,' + str(n).encode()
+                       + b' AS F$:LSET F$=A$:')
+                src = CV[n] + b'(F$)'
+                post = b':CLOSE'
+            line = (b'20 ' + pre + v + b'=' + src + b':C$=' + MK[n] + b'(' + v + b'):P$="":FOR I%=0 TO '
+                    + str(n - 1).encode() + b':P$=P$+CHR$(PEEK(VARPTR(' + v + b')+I%)):NEXT' + post)
         else:
             line = b'20 C$=' + MK[rn] + b'(' + inner + b')'
         o = s.execute(b'10 ON ERROR GOTO 90\n' + line + b':E%=0:END\n90 E%=ERR:RESUME 99\n99 END\n')
@@ -220,15 +237,23 @@ def judge_conv(res, f, b, route):
     # bytes: a non-zero value has exactly one encoding; zeros must be value 0 only
     if rn > 2 and rv != 0 and rb != mbf.encode_value(rv, rn):
         res.fail(key + '.encoding', '%s -> %s is not the normalised encoding' % (where, M.hx(rb)))
-    if f == 'MK' and route == 'prog':
-        res.label('stored-form-peeked')
-        if _LAST.get('peek') != rb:
-            res.fail(key + '.stored-form', '%s: MKx$ -> %s but the variable holds %s' % (
-                where, M.hx(rb), M.hx(_LAST.get('peek') or b'')))
-    if f == 'MK' and b[-1] != 0 and rb != b:
-        res.fail(key + '.bytes', '%s -> %s, expected the same bytes' % (where, M.hx(rb)))
-    if f == 'MK' and n == 2 and rb != b:
-        res.fail(key + '.bytes', '%s -> %s, expected the same bytes' % (where, M.hx(rb)))
+    if f == 'MK':
+        # CVx of ANY string gives a value whose encoding is those bytes - also for the
+        # non-canonical zeroes (exponent byte 0, anything in the mantissa/sign)
+        if n > 2 and b[-1] == 0 and b != bytes(n):
+            res.label('mk.noncanonical-zero')
+        elif n > 2 and b[:-1] == bytes(n - 1):
+            res.label('mk.zero-mantissa')
+        elif b == b'\xff' * n:
+            res.label('mk.all-ff')
+        if route in ('prog', 'field'):
+            res.label('stored-form-peeked')
+            peek = _LAST.get('peek')
+            if peek != rb or peek != b:
+                res.fail(key + '.stored-form', '%s: MKx$ -> %s, the variable holds %s, expected %s' % (
+                    where, M.hx(rb), M.hx(peek or b''), M.hx(b)))
+        if rb != b:
+            res.fail(key + '.bytes', '%s -> %s, expected the same bytes' % (where, M.hx(rb)))
 
 
 def show(acc):
@@ -331,7 +356,8 @@ def bulk_conv(patterns, n, ev, recheck_every=997, distinct=False):
     A = M.api()
     V, mk, BErr = A.V, A.mk, A.BASICError
     fns = [('CINT', V.cint_), ('FIX', V.fix_), ('INT', V.int_),
-           ('CDBL', V.cdbl_) if n == 4 else ('CSNG', V.csng_)]
+           ('CDBL', V.cdbl_) if n == 4 else ('CSNG', V.csng_),
+           ('MK', lambda args: args[0].clone())]
     seen = set()
     labels = {}
     cnt = nt = 0
@@ -401,6 +427,15 @@ def bulk_conv(patterns, n, ev, recheck_every=997, distinct=False):
                         bad = 'value'
                     elif want != 0 and obs != M.enc_int_value(want, n):
                         bad = 'encoding'
+                elif f == 'MK':
+                    if new:
+                        nt += 1
+                    if b[-1] == 0 and b != bytes(n):
+                        labels['mk.noncanonical-zero'] = labels.get('mk.noncanonical-zero', 0) + 1
+                    if err is not None:
+                        bad = 'spurious-error'
+                    elif obs != b:
+                        bad = 'bytes'
                 elif f == 'CDBL':
                     if new:
                         nt += 1
@@ -489,6 +524,52 @@ def run_single_exh(shard, nshards, tier, seed, ev):
     bulk_conv(pats(), 4, ev, recheck_every=99991, distinct=True)
 
 
+BOUNDARY_EXPS = (0, 1, 2, 0x7f, 0x80, 0x81, 0xfe, 0xff)
+BYTEVALS = (0x00, 0x01, 0x7f, 0x80, 0x81, 0xfe, 0xff)
+
+
+def boundary_patterns():
+    """Byte strings for MKx$(CVx(s)) = s: boundary exponent bytes x assorted mantissa/sign bytes."""
+    out = []
+    rng = random.Random(20260922)
+    for e in BOUNDARY_EXPS:
+        eb = bytes((e,))
+        # singles: every combination of the boundary byte values in the three mantissa bytes
+        for b0 in BYTEVALS:
+            for b1 in BYTEVALS:
+                for b2 in BYTEVALS:
+                    out.append(bytes((b0, b1, b2)) + eb)
+        # doubles: uniform bytes, one odd byte in each position, sign-byte specials, some random
+        mans = set()
+        for v in BYTEVALS:
+            mans.add(bytes((v,)) * 7)
+            for pos in range(7):
+                for base in (0x00, 0xff):
+                    m = bytearray((base,) * 7)
+                    m[pos] = v
+                    mans.add(bytes(m))
+        for top in (0x00, 0x7f, 0x80, 0xff):
+            mans.add(bytes(range(1, 7)) + bytes((top,)))
+        for _ in range(24):
+            mans.add(M.rand_bytes(rng, 7))
+        for m in sorted(mans):
+            out.append(m + eb)
+    for v in (0, 1, -1, 255, 256, -256, 32767, -32768, 0x7f80, -0x7f80, 0x00ff, -0x00ff):
+        out.append(mbf.int16_bytes(v))
+    return out
+
+
+def gen_boundary(shard, nshards, tier, seed):
+    routes = ('eval', 'prog', 'field')
+    for i, b in enumerate(boundary_patterns()):
+        if i % nshards != shard:
+            continue
+        for route in routes:
+            if route == 'field' and b[-1] not in (0, 1, 0xff) and len(b) > 2:
+                continue
+            yield {'u': 'conv', 'f': 'MK', 'b': M.lat(b), 'route': route}
+
+
 def gen_ints(shard, nshards, tier, seed):
     for v in range(INT_MIN + shard, INT_MAX + 1, nshards):
         yield {'u': 'int', 'n': v}
@@ -517,6 +598,8 @@ def strat_conv():
                 b = b4
             if f == 'CSNG':
                 b = b8
+        if f == 'MK' and route == 'prog' and dbl >= 3:
+            route = 'field'
         return {'u': 'conv', 'f': f, 'b': M.lat(b), 'route': route}
     return st.builds(build, st.sampled_from(['CINT', 'FIX', 'INT', 'CDBL', 'CSNG', 'CSNG', 'MK', 'MK']),
                      st_bytes(4), st_bytes(8), st.binary(min_size=2, max_size=2),
@@ -526,6 +609,7 @@ def strat_conv():
 def units(tier):
     us = [
         Unit('int-all', 'enum', shards=16, gen=gen_ints, exhaustive=True),
+        Unit('mk-boundary', 'enum', shards=8, gen=gen_boundary),
         Unit('single-bulk', 'bulk', shards=16, run=run_single),
         Unit('double-bulk', 'bulk', shards=16, run=run_double),
         Unit('conv-eval', 'hyp', shards=16, examples={'quick': 500, 'thorough': 25000},
@@ -553,11 +637,17 @@ REGRESSIONS = [
     _c('CSNG', '00000080ffff7f81'),    # exactly halfway, odd -> up, carries into the exponent
     _c('CSNG', '00000080ffff7fff', 'eval'),   # rounds up past the largest single -> Overflow
     _c('CSNG', 'ffffff7fffff7fff'),    # just below halfway at the top -> largest single
-    _c('MK', '01020300', 'eval'),      # dirty zero
+    _c('MK', '01020300', 'eval'),      # dirty zero: bytes must survive CVS -> MKS$
+    _c('MK', '01028300', 'prog'),      # dirty negative zero through a variable
+    _c('MK', '0102030405068700', 'field'),
+    _c('MK', '01000000', 'api'),
     _c('MK', 'ffffffffffffffff', 'prog'),
 ]
 
 KILLS = [
+    'wave-4 seed (Float.from_bytes canonicalises exponent-0 patterns to all-zero bytes) => mk.single.bytes, mk.single/double.stored-form (mk-boundary, single-bulk, double-bulk, conv-eval)',
+    'seeded/C03b (_normalise carry-out after rounding lost) => csng.double.value, csng.double.overflow-missing',
+    'seeded/C03c (to_int rounds half up instead of away from zero) => cint.single.value, cint.single.overflow-missing',
     "seeded/C03 (itrunc 'already whole' shortcut off by one exponent) => fix.single.value, int.single.value",
     'numbers.Float.to_int: carry test `man & 0x80` -> `man & 0x100` => cint.single.value, cint.single.overflow-missing (single-bulk)',
     'numbers.Float.ifloor: drop `and was_negative` => int.double.value (double-bulk)',
